@@ -562,11 +562,15 @@ def gen_small(ctx, n, np_):
         text = fh.read().replace('NP = 4', f'NP = {np_}')
     with open(gcfg, 'w') as fh:
         fh.write(text)
-    r = ctx.tlc('Gen_Sched', gcfg, simulate='num=1', depth=n + 1, seed=ctx.seed + 100 + np_, timeout=900)
-    cases = [json.loads(v[1]) for v in r.prints('CASE')]
-    if len(cases) < n * 0.5:
-        raise core.MachineryError(f'Gen_Sched produced only {len(cases)} of {n} cases\n{r.tail()}')
-    return cases
+    r = ctx.tlc('Gen_Sched', gcfg, simulate='num=1', depth=int(n * 1.4) + 2, seed=ctx.seed + 100 + np_, timeout=900)
+    seen, cases = set(), []
+    for v in r.prints('CASE'):
+        if v[1] not in seen:          # distinct cases only (vacuity guard: the sample must really vary)
+            seen.add(v[1])
+            cases.append(json.loads(v[1]))
+    if len(cases) < n * 0.7:
+        raise core.MachineryError(f'Gen_Sched produced only {len(cases)} distinct cases of {n} requested\n{r.tail()}')
+    return cases[:n]
 
 
 def prefilter(ctx, pairs):
